@@ -1372,6 +1372,12 @@ theorem RefInv.setCp {pools : List (Option Pool)} {slots : List Handle} (h : Ref
   have hq := h.rc_eq q
   simp only [refN_live] at c1; omega
 
+theorem RefInv.alloc {pools : List (Option Pool)} {slots : List Handle} (h : RefInv pools slots)
+    {slot pid : Nat} {cp : Policy} {p : Pool} (hs : slots[slot]? = some (.live pid cp))
+    (hp : poolAt pools pid = some p) (p' : Pool) (hr : p'.refcount = p.refcount) (cp' : Policy) :
+    RefInv (pools.set pid (some p')) (slots.set slot (.live pid cp')) :=
+  (h.setPool hp p' hr).setCp hs cp'
+
 theorem inv_new {s : State} (h : PoolInv s) (slot : Nat) (kind : PolicyKind) (cap : Nat)
     (hd : s.slots[slot]? = some .empty) : PoolInv (execNew s slot kind cap).1 := by
   unfold execNew
@@ -1406,5 +1412,661 @@ theorem inv_clear {s : State} (h : PoolInv s) (slot : Nat) : PoolInv (execClear 
       · exact h.pat.shrink h.chunk h.block hp _ clearFrees_sub
       · exact h.ref.setPool hp _ rfl
   · exact h
+
+/-! ### Malloc / Realloc -/
+
+theorem alignUp_idem (x : Nat) : alignUp (alignUp x) = alignUp x := by unfold alignUp; omega
+
+theorem poolMalloc_cases (p : Pool) (cp : Policy) (mem : Mem) (size : Nat) (h : size ≠ 0) :
+    (p.head.size + alignUp size ≤ p.head.cap ∧
+      poolMalloc p cp mem size =
+        ⟨{ p with head := { p.head with size := p.head.size + alignUp size } }, cp, mem,
+          some (p.head.reg, p.head.size)⟩) ∨
+    (p.head.cap < p.head.size + alignUp size ∧
+      poolMalloc p cp mem size =
+        ⟨{ p with head := ⟨mem.size, (cp.chunkSize (alignUp size)).2, alignUp size⟩,
+                  rest := p.head :: p.rest },
+          (cp.chunkSize (alignUp size)).1,
+          mem.baseMalloc (SIZEOF_CHUNK_HEADER + (cp.chunkSize (alignUp size)).2) SIZEOF_CHUNK_HEADER,
+          some (mem.size, 0)⟩) := by
+  unfold poolMalloc
+  simp only [h, if_false]
+  by_cases hf : p.head.size + alignUp size > p.head.cap
+  · right; rw [if_pos hf]; exact ⟨hf, rfl⟩
+  · left; rw [if_neg hf]; exact ⟨by omega, rfl⟩
+
+theorem poolRealloc_cases (p : Pool) (cp : Policy) (mem : Mem) (r o old new : Nat) (hn : new ≠ 0) :
+    (alignUp new ≤ alignUp old ∧ poolRealloc p cp mem (some (r, o)) old new = ⟨p, cp, mem, some (r, o)⟩) ∨
+    (alignUp old < alignUp new ∧ r = p.head.reg ∧ o + alignUp old = p.head.size ∧
+      p.head.size + (alignUp new - alignUp old) ≤ p.head.cap ∧
+      poolRealloc p cp mem (some (r, o)) old new =
+        ⟨{ p with head := { p.head with size := p.head.size + (alignUp new - alignUp old) } }, cp, mem,
+          some (r, o)⟩) ∨
+    (alignUp old < alignUp new ∧
+      ¬ (r = p.head.reg ∧ o + alignUp old = p.head.size ∧
+          p.head.size + (alignUp new - alignUp old) ≤ p.head.cap) ∧
+      ∃ r' o', (poolMalloc p cp mem (alignUp new)).ptr = some (r', o') ∧
+        poolRealloc p cp mem (some (r, o)) old new =
+          { poolMalloc p cp mem (alignUp new) with
+            mem := if alignUp old ≠ 0 then (poolMalloc p cp mem (alignUp new)).mem.copy r' o' r o (alignUp old)
+                   else (poolMalloc p cp mem (alignUp new)).mem }) := by
+  unfold poolRealloc
+  simp only [hn, if_false]
+  by_cases h1 : alignUp old ≥ alignUp new
+  · left; rw [if_pos h1]; exact ⟨h1, rfl⟩
+  · right
+    rw [if_neg h1]
+    by_cases h2 : r = p.head.reg ∧ o + alignUp old = p.head.size ∧
+        p.head.size + (alignUp new - alignUp old) ≤ p.head.cap
+    · left; rw [if_pos h2]
+      exact ⟨by omega, h2.1, h2.2.1, h2.2.2, rfl⟩
+    · right
+      rw [if_neg h2]
+      refine ⟨by omega, h2, ?_⟩
+      have hne : alignUp new ≠ 0 := by have := le_alignUp new; omega
+      rcases poolMalloc_cases p cp mem (alignUp new) hne with ⟨_, e⟩ | ⟨_, e⟩
+      · exact ⟨_, _, by rw [e], by rw [e]⟩
+      · exact ⟨_, _, by rw [e], by rw [e]⟩
+
+/-- the state after the allocator part of `pool-malloc` / `pool-realloc` -/
+def allocState (s : State) (slot pid : Nat) (r : MallocRes) : State :=
+  { s with pools := s.pools.set pid (some r.pool), slots := s.slots.set slot (.live pid r.cp), mem := r.mem }
+
+theorem allocCore_eq {s : State} {slot pid : Nat} {cp : Policy} {p : Pool}
+    (hs : s.slots[slot]? = some (.live pid cp)) (hp : poolAt s.pools pid = some p)
+    (orig : Ptr) (old new : Nat) :
+    allocCore s slot orig old new =
+      some (allocState s slot pid (poolRealloc p cp s.mem orig old new), pid,
+            poolRealloc p cp s.mem orig old new) := by
+  unfold allocCore allocState
+  simp only [hs, State.pool?, hp]
+
+/-- facts about a block about to be recorded at `(reg, off)` with aligned size `a` in pool `pid` -/
+structure NewBlockOk (pools : List (Option Pool)) (blocks : List Block) (pid reg off a : Nat) : Prop where
+  off_al : off % 8 = 0
+  in_chunk : ∃ p', poolAt pools pid = some p' ∧ ∃ c ∈ p'.chunks, c.reg = reg ∧ off + a ≤ c.size
+  above : ∀ b ∈ blocks, b.reg = reg → b.off + b.asz ≤ off
+  acc : ∀ p', poolAt pools pid = some p' → blockSum pid blocks + a ≤ p'.size
+
+theorem inv_poolMalloc {s : State} (h : PoolInv s) {slot pid : Nat} {cp : Policy} {p : Pool}
+    (hs : s.slots[slot]? = some (.live pid cp)) (hp : poolAt s.pools pid = some p)
+    (size : Nat) (hsz : size ≠ 0) :
+    ∃ reg off, (poolMalloc p cp s.mem size).ptr = some (reg, off) ∧
+      PoolInv (allocState s slot pid (poolMalloc p cp s.mem size)) ∧
+      NewBlockOk (allocState s slot pid (poolMalloc p cp s.mem size)).pools s.blocks pid reg off
+        (alignUp size) ∧
+      (∀ r o v, s.mem.read r o = some v → (poolMalloc p cp s.mem size).mem.read r o = some v) ∧
+      (∀ b ∈ s.blocks, (reg, off) ≠ (b.reg, b.off)) := by
+  have hlt := poolAt_lt hp
+  obtain ⟨c1, c2, c3, c4, c5⟩ := h.chunk.chunk_ok pid p hp p.head (by simp [Pool.chunks])
+  have hal := alignUp_mod size
+  have hpos : 0 < alignUp size := alignUp_pos (by omega)
+  rcases poolMalloc_cases p cp s.mem size hsz with ⟨hfit, e⟩ | ⟨hnofit, e⟩
+  · rw [e]
+    refine ⟨p.head.reg, p.head.size, rfl, ?_, ?_, fun _ _ _ hv => hv, ?_⟩
+    · refine { toMemInv := ⟨?_, ?_, h.pat⟩, ref := ?_ }
+      · exact h.chunk.updHead hp rfl rfl rfl hfit (by simp only; omega) rfl rfl
+      · exact h.block.updHead hp rfl rfl (by simp)
+      · refine RefInv.alloc h.ref hs hp _ ?_ _; rfl
+    · refine ⟨c2, ⟨{ p with head := { p.head with size := p.head.size + alignUp size } },
+          by simp only [allocState]; rw [poolAt_set hlt, if_pos rfl],
+          { p.head with size := p.head.size + alignUp size }, by simp [Pool.chunks], rfl,
+          Nat.le_refl _⟩, ?_, ?_⟩
+      · intro b hb e; exact (block_in_head h.chunk h.block hp hb e).2
+      · intro p' hp'
+        simp only [allocState] at hp'
+        rw [poolAt_set hlt, if_pos rfl] at hp'; cases hp'
+        have := h.block.account pid p hp
+        rw [Pool.size_eq] at this ⊢; simp only; omega
+    · intro b hb e
+      simp only [Prod.mk.injEq] at e
+      have := (block_in_head h.chunk h.block hp hb e.1.symm).2
+      have hb3 := (h.block.block_ok b hb)
+      have : 0 < b.asz := by rw [hb3.2.2.1]; exact alignUp_pos hb3.2.2.2.1
+      omega
+  · rw [e]
+    have hge := chunkSize_ge cp (alignUp size)
+    refine ⟨s.mem.size, 0, rfl, ?_, ?_, fun _ _ _ hv => read_baseMalloc_of_some _ _ hv, ?_⟩
+    · refine { toMemInv := ⟨?_, ?_, ?_⟩, ref := ?_ }
+      · exact h.chunk.addChunk hp _ _ _ p.refcount hge hal
+      · exact h.block.addChunk hp _ p.refcount
+      · exact h.pat.baseMalloc _ _
+      · refine RefInv.alloc h.ref hs hp _ ?_ _; rfl
+    · refine ⟨by simp, ⟨{ p with head := ⟨s.mem.size, (cp.chunkSize (alignUp size)).2, alignUp size⟩,
+                                  rest := p.head :: p.rest },
+          by simp only [allocState]; rw [poolAt_set hlt, if_pos rfl],
+          ⟨s.mem.size, (cp.chunkSize (alignUp size)).2, alignUp size⟩, by simp [Pool.chunks], rfl,
+          by simp⟩, ?_, ?_⟩
+      · intro b hb e
+        have := block_reg_lt h.chunk h.block hb; omega
+      · intro p' hp'
+        simp only [allocState] at hp'
+        rw [poolAt_set hlt, if_pos rfl] at hp'; cases hp'
+        have := h.block.account pid p hp
+        simp only [Pool.size, Pool.chunks, List.map_cons, List.sum_cons] at this ⊢; omega
+    · intro b hb e
+      simp only [Prod.mk.injEq] at e
+      have := block_reg_lt h.chunk h.block hb; omega
+
+theorem PoolInv.fillMem {s : State} (h : PoolInv s) (r o len : Nat) (f : Nat → Nat)
+    (hd : ∀ b ∈ s.blocks, b.reg = r → o + len ≤ b.off ∨ b.off + b.req ≤ o) :
+    PoolInv { s with mem := s.mem.fill r o len f } :=
+  { toMemInv := ⟨h.chunk.fill r o len f, h.block, h.pat.fill r o len f hd⟩, ref := h.ref }
+
+theorem newBlock_readable {s : State} (h : PoolInv s) {pid reg off a : Nat}
+    (hn : NewBlockOk s.pools s.blocks pid reg off a) (i : Nat) (hi : i < a) :
+    (s.mem.read reg (off + i)).isSome := by
+  obtain ⟨p', hp', c, hc, e1, e2⟩ := hn.in_chunk
+  obtain ⟨a1, _, _, a4, _⟩ := h.chunk.chunk_ok pid p' hp' c hc
+  rw [← e1]; exact a4 _ (by omega)
+
+theorem inv_recordNew {s : State} (h : PoolInv s) {pid reg off size : Nat} (hsz : 0 < size)
+    (hn : NewBlockOk s.pools s.blocks pid reg off (alignUp size)) :
+    PoolInv (recordNew s pid reg off size) := by
+  unfold recordNew
+  have hle := le_alignUp size
+  refine { toMemInv := ⟨h.chunk.fill _ _ _ _, ?_, ?_⟩, ref := h.ref }
+  · refine h.block.addBlock ⟨s.nextBlock, pid, reg, off, size, alignUp size⟩ rfl hn.off_al rfl hsz
+      hn.in_chunk ?_ hn.acc
+    intro x hx
+    by_cases e : x.reg = reg
+    · exact Or.inr (Or.inr (hn.above x hx e))
+    · exact Or.inl (fun e' => e e'.symm)
+  · refine (h.pat.fill reg off size _ ?_).addBlock ⟨s.nextBlock, pid, reg, off, size, alignUp size⟩ ?_
+    · intro b hb e
+      have := hn.above b hb e
+      have := (h.block.block_ok b hb).2.2.1
+      have := le_alignUp b.req
+      right; omega
+    · intro i hi
+      simp only at hi ⊢
+      rw [read_fill, if_pos ⟨rfl, by omega, by omega, newBlock_readable h hn i (by omega)⟩]
+      congr 2; omega
+
+theorem inv_recordGrow {s : State} (h : PoolInv s) {b : Block} (hb : b ∈ s.blocks) (newsize : Nat)
+    (hgt : b.req < newsize)
+    (hin : ∀ p, poolAt s.pools b.pool = some p →
+      ∃ c ∈ p.chunks, c.reg = b.reg ∧ b.off + alignUp newsize ≤ c.size)
+    (hdisj : ∀ x ∈ s.blocks, x.id ≠ b.id →
+      x.reg ≠ b.reg ∨ x.off + x.asz ≤ b.off ∨ b.off + alignUp newsize ≤ x.off)
+    (hacc : ∀ p, poolAt s.pools b.pool = some p →
+      blockSum b.pool s.blocks + (alignUp newsize - b.asz) ≤ p.size) :
+    PoolInv (recordGrow s b b.req newsize) := by
+  unfold recordGrow
+  have hle := le_alignUp newsize
+  obtain ⟨b1, b2, b3, b4, pb, hpb, _⟩ := h.block.block_ok b hb
+  have hfill : ∀ x ∈ s.blocks, x.reg = b.reg →
+      b.off + b.req + (newsize - b.req) ≤ x.off ∨ x.off + x.req ≤ b.off + b.req := by
+    intro x hx e
+    by_cases eid : x.id = b.id
+    · have := eq_of_id_eq h.block.disj hx hb eid; subst this; right; omega
+    · have := (h.block.block_ok x hx).2.2.1
+      have := le_alignUp x.req
+      rcases hdisj x hx eid with d | d | d
+      · exact absurd e d
+      · right; omega
+      · left; omega
+  refine { toMemInv := ⟨h.chunk.fill _ _ _ _, ?_, ?_⟩, ref := h.ref }
+  · exact h.block.updBlock hb newsize (by omega) hin hdisj hacc
+  · refine (h.pat.fill _ _ _ _ hfill).updBlock h.block hb newsize ?_
+    intro i hi
+    by_cases hlt : i < b.req
+    · rw [read_fill_of_outside _ _ _ _ _ _ _ (by intro _; omega)]
+      exact h.pat b hb i hlt
+    · obtain ⟨c, hc, e1, e2⟩ := hin pb hpb
+      obtain ⟨a1, _, _, a4, _⟩ := h.chunk.chunk_ok _ pb hpb c hc
+      rw [read_fill, if_pos ⟨rfl, by omega, by omega, by rw [← e1]; exact a4 _ (by omega)⟩]
+      congr 2; omega
+
+theorem allocCore_some {s : State} {slot : Nat} {orig : Ptr} {old new : Nat} {s1 : State} {pid : Nat}
+    {r : MallocRes} (h : allocCore s slot orig old new = some (s1, pid, r)) :
+    ∃ cp p, s.slots[slot]? = some (.live pid cp) ∧ poolAt s.pools pid = some p ∧
+      r = poolRealloc p cp s.mem orig old new ∧ s1 = allocState s slot pid r := by
+  unfold allocCore at h
+  split at h
+  · next pid' cp hs =>
+    split at h
+    · next p hp =>
+      simp only [Option.some.injEq, Prod.mk.injEq] at h
+      obtain ⟨e1, e2, e3⟩ := h
+      subst e2
+      exact ⟨cp, p, hs, hp, e3.symm, by rw [← e1, ← e3]; rfl⟩
+    · cases h
+  · cases h
+
+theorem inv_allocSame {s : State} (h : PoolInv s) {slot pid : Nat} {cp : Policy} {p : Pool}
+    (hs : s.slots[slot]? = some (.live pid cp)) (hp : poolAt s.pools pid = some p) (ptr : Ptr) :
+    PoolInv (allocState s slot pid ⟨p, cp, s.mem, ptr⟩) := by
+  obtain ⟨a1, a2, _, _, _⟩ := h.chunk.chunk_ok pid p hp p.head (by simp [Pool.chunks])
+  refine { toMemInv := ⟨?_, ?_, h.pat⟩, ref := ?_ }
+  · exact h.chunk.updHead hp rfl rfl rfl a1 a2 rfl rfl
+  · exact h.block.updHead hp rfl rfl (Nat.le_refl _)
+  · exact RefInv.alloc h.ref hs hp p rfl cp
+
+theorem poolRealloc_none (p : Pool) (cp : Policy) (mem : Mem) (old new : Nat) :
+    poolRealloc p cp mem none old new = poolMalloc p cp mem new := rfl
+
+theorem poolMalloc_zero (p : Pool) (cp : Policy) (mem : Mem) : poolMalloc p cp mem 0 = ⟨p, cp, mem, none⟩ := rfl
+
+/-- `Malloc(size)` through `slot`, then the harness bookkeeping -/
+theorem inv_mallocPath {s : State} (h : PoolInv s) {slot pid : Nat} {cp : Policy} {p : Pool}
+    (hs : s.slots[slot]? = some (.live pid cp)) (hp : poolAt s.pools pid = some p) (size : Nat) :
+    PoolInv (match (poolMalloc p cp s.mem size).ptr with
+      | none => allocState s slot pid (poolMalloc p cp s.mem size)
+      | some (reg, off) => recordNew (allocState s slot pid (poolMalloc p cp s.mem size)) pid reg off size) := by
+  by_cases hz : size = 0
+  · subst hz; rw [poolMalloc_zero]; exact inv_allocSame h hs hp none
+  · obtain ⟨reg, off, e, hi, hn, _, _⟩ := inv_poolMalloc h hs hp size hz
+    rw [e]
+    exact inv_recordNew hi (by omega) hn
+
+theorem inv_malloc {s : State} (h : PoolInv s) (slot size : Nat) : PoolInv (execMalloc s slot size).1 := by
+  unfold execMalloc
+  rcases hac : allocCore s slot none 0 size with _ | ⟨s1, pid, r⟩
+  · exact h
+  · obtain ⟨cp, p, hs, hp, rfl, rfl⟩ := allocCore_some hac
+    have := inv_mallocPath h hs hp size
+    rw [poolRealloc_none]
+    simp only
+    split at this <;> next e => simp only [e]; exact this
+
+theorem Disjoint.symm {a b : Block} (h : Disjoint a b) : Disjoint b a := by
+  rcases h with d | d | d
+  · exact Or.inl (fun e => d e.symm)
+  · exact Or.inr (Or.inr d)
+  · exact Or.inr (Or.inl d)
+
+theorem disj_of_mem : ∀ {l : List Block}, l.Pairwise (fun a b => a.id ≠ b.id ∧ Disjoint a b) →
+    ∀ {x b : Block}, x ∈ l → b ∈ l → x.id ≠ b.id → Disjoint x b := by
+  intro l; induction l with
+  | nil => intro _ x b hx; simp at hx
+  | cons y ys ih =>
+    intro hp x b hx hb hne
+    obtain ⟨h1, h2⟩ := List.pairwise_cons.mp hp
+    rcases List.mem_cons.mp hx with hx' | hx' <;> rcases List.mem_cons.mp hb with hb' | hb'
+    · rw [hx', hb'] at hne; exact absurd rfl hne
+    · rw [hx']; exact (h1 b hb').2
+    · rw [hb']; exact (h1 x hx').2.symm
+    · exact ih h2 hx' hb' hne
+
+theorem findBlock_some {s : State} {bid : Nat} {b : Block} (h : s.findBlock bid = some b) :
+    b ∈ s.blocks ∧ b.id = bid := by
+  unfold State.findBlock at h
+  exact ⟨List.mem_of_find?_eq_some h, by simpa using List.find?_some h⟩
+
+theorem poolAt_set_same {pools : List (Option Pool)} {pid : Nat} {p : Pool}
+    (hp : poolAt pools pid = some p) (q : Nat) : poolAt (pools.set pid (some p)) q = poolAt pools q := by
+  rw [poolAt_set (poolAt_lt hp)]
+  split
+  · next e => rw [e, hp]
+  · rfl
+
+/-- `Realloc(block b, b.req, newsize)` through `slot`, then the harness bookkeeping -/
+theorem inv_reallocPath {s : State} (h : PoolInv s) {slot pid : Nat} {cp : Policy} {p : Pool}
+    (hs : s.slots[slot]? = some (.live pid cp)) (hp : poolAt s.pools pid = some p)
+    {b : Block} (hb : b ∈ s.blocks) (newsize : Nat) :
+    PoolInv (match (poolRealloc p cp s.mem (some (b.reg, b.off)) b.req newsize).ptr with
+      | none => allocState s slot pid (poolRealloc p cp s.mem (some (b.reg, b.off)) b.req newsize)
+      | some (reg, off) =>
+        if reg = b.reg ∧ off = b.off then
+          (if newsize > b.req then
+            recordGrow (allocState s slot pid (poolRealloc p cp s.mem (some (b.reg, b.off)) b.req newsize))
+              b b.req newsize
+           else allocState s slot pid (poolRealloc p cp s.mem (some (b.reg, b.off)) b.req newsize))
+        else recordNew (allocState s slot pid (poolRealloc p cp s.mem (some (b.reg, b.off)) b.req newsize))
+              pid reg off newsize) := by
+  have hlt := poolAt_lt hp
+  obtain ⟨b1, b2, b3, b4, pb, hpb, cb, hcb, ecb1, ecb2⟩ := h.block.block_ok b hb
+  by_cases hz : newsize = 0
+  · subst hz
+    have : poolRealloc p cp s.mem (some (b.reg, b.off)) b.req 0 = ⟨p, cp, s.mem, none⟩ := by
+      simp [poolRealloc]
+    rw [this]; exact inv_allocSame h hs hp none
+  · rcases poolRealloc_cases p cp s.mem b.reg b.off b.req newsize hz with
+      ⟨hle, e⟩ | ⟨hlt', hreg, hoff, hfit, e⟩ | ⟨hlt', hno, r', o', eptr, e⟩
+    · -- no growth needed
+      rw [e]
+      simp only [and_self, if_true]
+      have hI := inv_allocSame h hs hp (some (b.reg, b.off))
+      split
+      · next hgt =>
+        have hasz : alignUp newsize = b.asz := by
+          have := alignUp_mono (Nat.le_of_lt hgt); omega
+        refine inv_recordGrow hI hb newsize hgt ?_ ?_ ?_
+        · intro q hq
+          simp only [allocState] at hq
+          rw [poolAt_set_same hp, hpb] at hq; cases hq
+          exact ⟨cb, hcb, ecb1, by omega⟩
+        · intro x hx hne
+          have hd : Disjoint x b := disj_of_mem h.block.disj hx hb hne
+          rw [hasz]; exact hd
+        · intro q hq
+          simp only [allocState] at hq
+          rw [poolAt_set_same hp] at hq
+          have := h.block.account _ q hq
+          rw [hasz]; simp only [allocState]; omega
+      · exact hI
+    · -- grown in place
+      rw [e]
+      simp only [and_self, if_true]
+      obtain ⟨hbp, hbe⟩ := block_in_head h.chunk h.block hp hb hreg
+      obtain ⟨c1, c2, _⟩ := h.chunk.chunk_ok pid p hp p.head (by simp [Pool.chunks])
+      have hm1 := alignUp_mod newsize
+      have hm2 := alignUp_mod b.req
+      have hI : PoolInv (allocState s slot pid
+          ⟨{ p with head := { p.head with size := p.head.size + (alignUp newsize - alignUp b.req) } }, cp,
+            s.mem, some (b.reg, b.off)⟩) := by
+        refine { toMemInv := ⟨?_, ?_, h.pat⟩, ref := ?_ }
+        · exact h.chunk.updHead hp rfl rfl rfl hfit (by simp only; omega) rfl rfl
+        · exact h.block.updHead hp rfl rfl (by simp)
+        · refine RefInv.alloc h.ref hs hp _ ?_ _; rfl
+      have hgt : b.req < newsize := by
+        rcases Nat.lt_or_ge b.req newsize with g | g
+        · exact g
+        · have := alignUp_mono g; omega
+      rw [if_pos hgt]
+      refine inv_recordGrow hI hb newsize hgt ?_ ?_ ?_
+      · intro q hq
+        simp only [allocState] at hq
+        rw [hbp, poolAt_set hlt, if_pos rfl] at hq; cases hq
+        exact ⟨{ p.head with size := p.head.size + (alignUp newsize - alignUp b.req) },
+          by simp [Pool.chunks], hreg.symm, by simp only; omega⟩
+      · intro x hx hne
+        by_cases ex : x.reg = b.reg
+        · right; left
+          have hx2 := (block_in_head h.chunk h.block hp hx (ex.trans hreg)).2
+          have hxa : 0 < x.asz := by
+            have := h.block.block_ok x hx
+            rw [this.2.2.1]; exact alignUp_pos this.2.2.2.1
+          -- x and b are disjoint; b is the last block of the head chunk
+          have hd : Disjoint x b := disj_of_mem h.block.disj hx hb hne
+          rcases hd with d | d | d
+          · exact absurd ex d
+          · exact d
+          · omega
+        · exact Or.inl ex
+      · intro q hq
+        simp only [allocState] at hq
+        rw [hbp, poolAt_set hlt, if_pos rfl] at hq; cases hq
+        have := h.block.account pid p hp
+        rw [Pool.size_eq] at this ⊢
+        rw [hbp]; simp only [allocState]; omega
+    · -- allocate and copy
+      have hne : alignUp newsize ≠ 0 := by have := le_alignUp newsize; omega
+      obtain ⟨reg, off, eptr', hI, hn, hext, hfresh⟩ := inv_poolMalloc h hs hp (alignUp newsize) hne
+      rw [eptr] at eptr'; cases eptr'
+      rw [alignUp_idem] at hn
+      rw [e]
+      simp only [eptr]
+      have hneq : ¬ (r' = b.reg ∧ o' = b.off) := by
+        intro ⟨e1, e2⟩; exact hfresh b hb (by rw [e1, e2])
+      rw [if_neg hneq]
+      have hI2 : PoolInv (allocState s slot pid
+          { poolMalloc p cp s.mem (alignUp newsize) with
+            mem := if alignUp b.req ≠ 0 then
+                (poolMalloc p cp s.mem (alignUp newsize)).mem.copy r' o' b.reg b.off (alignUp b.req)
+              else (poolMalloc p cp s.mem (alignUp newsize)).mem }) := by
+        split
+        · have := hI.fillMem r' o' (alignUp b.req)
+            (fun j => ((poolMalloc p cp s.mem (alignUp newsize)).mem.read b.reg (b.off + j)).getD poison) ?_
+          · exact this
+          · intro x hx ex
+            have := hn.above x hx ex
+            have := (h.block.block_ok x hx).2.2.1
+            have := le_alignUp x.req
+            right
+            simp only [allocState] at *
+            omega
+        · exact hI
+      exact inv_recordNew hI2 (by omega) hn
+
+theorem inv_realloc {s : State} (h : PoolInv s) (slot : Nat) (blk : Option Nat) (old new : Nat)
+    (hpre : ∀ bid b, blk = some bid → s.findBlock bid = some b → b.req = old) :
+    PoolInv (execRealloc s slot blk old new).1 := by
+  unfold execRealloc
+  cases blk with
+  | none =>
+    simp only
+    rcases hac : allocCore s slot none old new with _ | ⟨s1, pid, r⟩
+    · exact h
+    · obtain ⟨cp, p, hs, hp, rfl, rfl⟩ := allocCore_some hac
+      have := inv_mallocPath h hs hp new
+      rw [poolRealloc_none]
+      simp only
+      split at this <;> next e => simp only [e]; exact this
+  | some bid =>
+    simp only
+    rcases hf : s.findBlock bid with _ | b
+    · exact h
+    · simp only
+      obtain ⟨hb, _⟩ := findBlock_some hf
+      have hold := hpre bid b rfl hf
+      subst hold
+      rcases hac : allocCore s slot (some (b.reg, b.off)) b.req new with _ | ⟨s1, pid, r⟩
+      · exact h
+      · obtain ⟨cp, p, hs, hp, rfl, rfl⟩ := allocCore_some hac
+        have := inv_reallocPath h hs hp hb new
+        simp only
+        split at this
+        · next e => simp only [e]; exact this
+        · next reg off e =>
+          simp only [e]
+          split at this
+          · next hc => rw [if_pos hc]; simp only; exact this
+          · next hc => rw [if_neg hc]; exact this
+
+theorem inv_step {s : State} (h : PoolInv s) (op : Op) : PoolInv (step s op).1 := by
+  unfold step
+  by_cases hpre : op.pre s = true
+  · rw [if_pos hpre]
+    cases op with
+    | new slot kind cap =>
+      simp only [Op.pre, Bool.and_eq_true, isEmpty_iff] at hpre
+      exact inv_new h slot kind cap hpre.1
+    | newbuf slot kind cap bufsize misalign =>
+      simp only [Op.pre, Bool.and_eq_true, isEmpty_iff] at hpre
+      exact inv_newbuf h slot kind cap bufsize misalign hpre.1.1.1.1
+    | copy dst src =>
+      simp only [Op.pre, Bool.and_eq_true, isEmpty_iff] at hpre
+      exact inv_copy h dst src hpre.1
+    | move dst src =>
+      simp only [Op.pre, Bool.and_eq_true, isEmpty_iff] at hpre
+      exact inv_move h dst src hpre.1
+    | assign dst src => exact inv_assign h dst src
+    | massign dst src =>
+      simp only [Op.pre, Bool.and_eq_true, decide_eq_true_eq] at hpre
+      exact inv_massign h dst src hpre.2
+    | destroy slot => exact inv_destroy h slot
+    | malloc slot size => exact inv_malloc h slot size
+    | realloc slot blk o n =>
+      refine inv_realloc h slot blk o n ?_
+      intro bid b e hf
+      subst e
+      simp only [Op.pre, Bool.and_eq_true, hf, decide_eq_true_eq] at hpre
+      exact hpre.2
+    | clear slot => exact inv_clear h slot
+    | stat slot => exact inv_stat h slot
+  · rw [if_neg hpre]; exact h
+
+theorem inv_init : PoolInv State.init := by
+  refine { toMemInv := ⟨?_, ?_, ?_⟩, ref := ⟨rfl, ?_, ?_⟩ }
+  · constructor <;> simp [State.init, poolAt]
+  · constructor <;> simp [State.init, poolAt]
+  · intro b hb; simp [State.init] at hb
+  · intro pid; simp [State.init, rcN, poolAt, count, Handle.refers]
+  · intro pid p hp; simp [State.init, poolAt] at hp
+
+theorem foldl_inv {s : State} (h : PoolInv s) (ops : List Op) :
+    PoolInv (ops.foldl (fun s op => (step s op).1) s) := by
+  induction ops generalizing s with
+  | nil => exact h
+  | cons op ops ih => exact ih (inv_step h op)
+
+theorem inv_run (ops : List Op) : PoolInv (run ops) := foldl_inv inv_init ops
+
+/-! ### blocks persist: a surviving block keeps its address, its requested size only grows -/
+
+def Persist (n : Nat) (old new : List Block) : Prop :=
+  ∀ b' ∈ new, b'.id < n → ∃ b ∈ old, b.id = b'.id ∧ b.reg = b'.reg ∧ b.off = b'.off ∧ b.req ≤ b'.req
+
+theorem Persist.of_sub {n : Nat} {old new : List Block} (h : ∀ b ∈ new, b ∈ old) : Persist n old new :=
+  fun b' hb' _ => ⟨b', h b' hb', rfl, rfl, rfl, Nat.le_refl _⟩
+
+theorem Persist.refl (n : Nat) (l : List Block) : Persist n l l := Persist.of_sub (fun _ h => h)
+
+theorem Persist.cons {n : Nat} {old new : List Block} (h : Persist n old new) (b0 : Block) (h0 : ¬ b0.id < n) :
+    Persist n old (b0 :: new) := by
+  intro b' hb' hlt
+  rcases List.mem_cons.mp hb' with rfl | hb'
+  · exact absurd hlt h0
+  · exact h b' hb' hlt
+
+theorem Persist.upd {n : Nat} {l : List Block} {R : Block → Block → Prop}
+    (hp : l.Pairwise (fun a b => a.id ≠ b.id ∧ R a b)) {b : Block} (hb : b ∈ l) (r' : Nat) (hr : b.req ≤ r') :
+    Persist n l (l.map (updBlock b.id r')) := by
+  intro b' hb' _
+  obtain ⟨y, hy, rfl⟩ := List.mem_map.mp hb'
+  by_cases e : y.id = b.id
+  · have := eq_of_id_eq hp hy hb e; subst this
+    exact ⟨y, hy, by simp [Pool.updBlock], by simp [Pool.updBlock], by simp [Pool.updBlock],
+      by simp [Pool.updBlock]; exact hr⟩
+  · exact ⟨y, hy, by simp [Pool.updBlock, e], by simp [Pool.updBlock, e], by simp [Pool.updBlock, e],
+      by simp [Pool.updBlock, e]⟩
+
+theorem dtor_blocks_sub (s : State) (h : Handle) : ∀ b ∈ (dtor s h).1.blocks, b ∈ s.blocks := by
+  unfold dtor
+  cases h with
+  | empty => exact fun _ h => h
+  | moved cp => exact fun _ h => h
+  | live pid cp =>
+    simp only
+    split
+    · split
+      · exact fun _ h => h
+      · exact fun b hb => (List.mem_filter.mp hb).1
+    · exact fun _ h => h
+
+theorem dtor_nextBlock (s : State) (h : Handle) : (dtor s h).1.nextBlock = s.nextBlock := by
+  unfold dtor
+  cases h with
+  | empty => rfl
+  | moved cp => rfl
+  | live pid cp =>
+    simp only
+    split
+    · split <;> rfl
+    · rfl
+
+theorem incRef_blocks (s : State) (pid : Nat) : (incRef s pid).blocks = s.blocks := by
+  unfold incRef; split <;> rfl
+
+theorem persist_mallocPath (s : State) (slot pid reg off size : Nat) (r : MallocRes) :
+    Persist s.nextBlock s.blocks (recordNew (allocState s slot pid r) pid reg off size).blocks :=
+  (Persist.refl _ _).cons _ (by simp [allocState])
+
+theorem persist_step {s : State} (h : PoolInv s) (op : Op) :
+    Persist s.nextBlock s.blocks (step s op).1.blocks := by
+  unfold step
+  split
+  · next hpre =>
+    cases op with
+    | new slot kind cap => exact Persist.refl _ _
+    | newbuf slot kind cap bufsize misalign => exact Persist.refl _ _
+    | copy dst src =>
+      simp only [exec, execCopy]
+      split
+      · simp only [incRef_blocks]; exact Persist.refl _ _
+      · exact Persist.refl _ _
+    | move dst src =>
+      simp only [exec, execMove]
+      split <;> exact Persist.refl _ _
+    | assign dst src =>
+      simp only [exec, execAssign]
+      split
+      · refine Persist.of_sub (fun b hb => ?_)
+        have := dtor_blocks_sub _ _ b hb
+        rwa [incRef_blocks] at this
+      · exact Persist.refl _ _
+    | massign dst src =>
+      simp only [exec, execMassign]
+      split
+      · exact Persist.of_sub (fun b hb => dtor_blocks_sub _ _ b hb)
+      · exact Persist.refl _ _
+    | destroy slot =>
+      simp only [exec, execDestroy]
+      split
+      · exact Persist.of_sub (fun b hb => dtor_blocks_sub _ _ b hb)
+      · exact Persist.refl _ _
+    | malloc slot size =>
+      simp only [exec, execMalloc]
+      rcases hac : allocCore s slot none 0 size with _ | ⟨s1, pid, r⟩
+      · exact Persist.refl _ _
+      · obtain ⟨cp, p, hs, hp, rfl, rfl⟩ := allocCore_some hac
+        simp only
+        split
+        · exact Persist.refl _ _
+        · exact persist_mallocPath _ _ _ _ _ _ _
+    | realloc slot blk o n =>
+      simp only [exec, execRealloc]
+      cases blk with
+      | none =>
+        simp only
+        rcases hac : allocCore s slot none o n with _ | ⟨s1, pid, r⟩
+        · exact Persist.refl _ _
+        · obtain ⟨cp, p, hs, hp, rfl, rfl⟩ := allocCore_some hac
+          simp only
+          split
+          · exact Persist.refl _ _
+          · exact persist_mallocPath _ _ _ _ _ _ _
+      | some bid =>
+        simp only
+        rcases hf : s.findBlock bid with _ | b
+        · exact Persist.refl _ _
+        · simp only
+          obtain ⟨hb, _⟩ := findBlock_some hf
+          have hold : b.req = o := by
+            simp only [Op.pre, Bool.and_eq_true, hf, decide_eq_true_eq] at hpre
+            exact hpre.2
+          rcases hac : allocCore s slot (some (b.reg, b.off)) o n with _ | ⟨s1, pid, r⟩
+          · exact Persist.refl _ _
+          · obtain ⟨cp, p, hs, hp, rfl, rfl⟩ := allocCore_some hac
+            simp only
+            split
+            · exact Persist.refl _ _
+            · split
+              · split
+                · next hgt =>
+                  exact Persist.upd h.block.disj hb n (by omega)
+                · exact Persist.refl _ _
+              · exact persist_mallocPath _ _ _ _ _ _ _
+    | clear slot =>
+      simp only [exec, execClear]
+      split
+      · split
+        · exact Persist.of_sub (fun b hb => (List.mem_filter.mp hb).1)
+        · exact Persist.refl _ _
+      · exact Persist.refl _ _
+    | stat slot =>
+      simp only [exec, execStat]
+      split
+      · split <;> exact Persist.refl _ _
+      · exact Persist.refl _ _
+  · exact Persist.refl _ _
+
+/-- the bytes of every block that survives an op are unchanged by it -/
+theorem stable_step {s : State} (h : PoolInv s) (op : Op) {b b' : Block} (hb : b ∈ s.blocks)
+    (hb' : b' ∈ (step s op).1.blocks) (hid : b'.id = b.id) :
+    b'.reg = b.reg ∧ b'.off = b.off ∧ b.req ≤ b'.req ∧
+    ∀ i, i < b.req → (step s op).1.mem.read b.reg (b.off + i) = s.mem.read b.reg (b.off + i) := by
+  have hlt := (h.block.block_ok b hb).1
+  obtain ⟨b0, hb0, e0, e1, e2, e3⟩ := persist_step h op b' hb' (by omega)
+  have : b0 = b := eq_of_id_eq h.block.disj hb0 hb (by omega)
+  subst this
+  refine ⟨e1.symm, e2.symm, e3, ?_⟩
+  intro i hi
+  have h' := inv_step h op
+  have := h'.pat b' hb' i (by omega)
+  rw [← e1, ← e2, ← e0] at this
+  rw [this, h.pat b0 hb i hi]
 
 end Sonic.Proofs.Pool
